@@ -368,7 +368,7 @@ pub fn run(ctx: &Ctx, rep: &mut Report) {
         let mut rng = ctx.rng("c03", i);
         let len = match rng.below(20) {
             0 => rng.range(0, 12) as usize,
-            1 if ctx.thorough() => rng.range(200_000, 1_100_000) as usize,
+            1 if ctx.thorough() && !gen::small() && ctx.scale >= 0.2 => rng.range(200_000, 1_100_000) as usize,
             _ => gen::byte_length(&mut rng, false).min(4096),
         };
         let (data, _) = gen::content(&mut rng, len, None);
